@@ -199,6 +199,7 @@ class SetMembersMixin:
         parts = _get_parts(key)
         if len(parts) == 1:
             name = parts[0]
+            aliases: list[Alias] = []
             if name in self.members:  # type: ignore[attr-defined]
                 member = self.members[name]  # type: ignore[attr-defined]
                 if not member.is_alias:
@@ -209,17 +210,20 @@ class SetMembersMixin:
                         # Accessing attributes of the value or member can trigger alias errors.
                         # Accessing file paths can trigger a builtin module error.
                         with suppress(AliasResolutionError, CyclicAliasError, BuiltinModuleError):
-                            if value.is_module and value.filepath != member.filepath:
+                            if not value.is_alias and value.is_module and value.filepath != member.filepath:
                                 with suppress(ValueError):
                                     value = merge_stubs(member, value)  # type: ignore[arg-type]
-                    for alias in member.aliases.values():
-                        with suppress(CyclicAliasError):
-                            alias.target = value
+                    aliases = list(member.aliases.values())
             self.members[name] = value  # type: ignore[attr-defined]
             if self.is_collection:  # type: ignore[attr-defined]
                 value._modules_collection = self  # type: ignore[union-attr]
             else:
                 value.parent = self  # type: ignore[assignment]
+            # Retarget aliases once the new member is attached: only then is its path known
+            # (the new member can be an alias without parent, or an object moved from elsewhere).
+            for alias in aliases:
+                with suppress(CyclicAliasError):
+                    alias.target = value
         else:
             self.members[parts[0]].set_member(parts[1:], value)  # type: ignore[attr-defined]
 
